@@ -1,6 +1,7 @@
 import Batteries.Data.List.Perm
 import BigtreeProofs.Lemmas.ModifyFrame
 import BigtreeProofs.Lemmas.ModifyReplace
+import BigtreeProofs.Lemmas.ModifyObjs
 /-!
 # C08 helper lemmas: the frame of one `replace_logic` pair, for every flag combination
 
@@ -195,5 +196,99 @@ theorem stepReplace_sub {cfg : Cfg} {st st' : St} {pr : Str × Option Str} {fp :
                 | false =>
                   simp only [Bool.false_eq_true, if_false]
                   exact hkeep st.dst List.filter_sublist
+
+end Modify
+
+/-! ## nothing is invented by a replace pair -/
+namespace Modify
+open List
+
+theorem objs_perm_of_flat_perm {t t' : Tree} (h : (flat t').Perm (flat t)) : ∀ x ∈ objs t', x ∈ objs t := by
+  intro x hx
+  exact (h.map (·.2)).subset hx
+
+theorem replaceAt_objs {live0 : Bool} {fp dp pp : List Str} {Fm t0 t : Tree}
+    (h : replaceAt live0 fp dp pp Fm t0 = .ok t) : ∀ x ∈ objs t, x ∈ objs t0 ∨ x ∈ objs Fm := by
+  unfold replaceAt at h
+  simp only at h
+  split at h
+  · cases h
+  · split at h
+    · cases h
+    · next t2 h2 =>
+      simp only [Except.ok.injEq] at h; subst h
+      intro x hx
+      have hx2 : x ∈ objs t2 := objs_perm_of_flat_perm (flat_perm_reappendAll pp _ t2) x hx
+      rcases attachOne_objs h2 x hx2 with h3 | h3
+      · left
+        have h4 : x ∈ objs (removeAt dp t0) := by
+          split at h3
+          · exact objs_removeAt_sub fp _ x h3
+          · exact h3
+        exact objs_removeAt_sub dp t0 x h4
+      · exact Or.inr h3
+
+/-- one replace pair: every node of the result is an old object of the destination tree, or (shift) of the
+tree the from-node was looked up in, or a fresh copy -/
+theorem stepReplace_objs {cfg : Cfg} {st st' : St} {pr : Str × Option Str} {fp : List Str} {F : Tree}
+    (hres : resolveFrom cfg st pr.1 = .ok (some (fp, F))) (h : stepReplace cfg st pr = .ok st') :
+    st.next ≤ st'.next ∧
+    ∀ x ∈ objs st'.dst, Known (objs st.dst ++ (if cfg.copy then [] else objs F)) st.next st'.next x := by
+  unfold stepReplace at h
+  simp only [hres] at h
+  cases htp : pr.2 with
+  | none => simp [htp] at h
+  | some tp =>
+    simp only [htp] at h
+    cases hf : findFullPath cfg.tsep st.dst tp with
+    | error e => simp [hf] at h
+    | ok o =>
+      cases o with
+      | none => simp [hf] at h
+      | some y =>
+        obtain ⟨dp, X⟩ := y
+        simp only [hf] at h
+        split at h
+        · cases h
+        · cases hp : parentOf dp with
+          | none => simp [hp] at h
+          | some pp =>
+            simp only [hp] at h
+            split at h
+            · cases h
+            · next t hr =>
+              simp only [Except.ok.injEq] at h; subst h
+              simp only
+              have hcore := replaceAt_objs hr
+              have ht0 : ∀ x ∈ objs (if (st.src.isNone && !cfg.copy) && cfg.deleteChildren
+                  then modifyAt fp (setKids []) st.dst else st.dst), x ∈ objs st.dst := by
+                intro x hx
+                split at hx
+                · exact objs_modifyAt_sub (setKids []) objs_setKids_nil fp st.dst x hx
+                · exact hx
+              cases hcp : cfg.copy with
+              | true =>
+                simp only [hcp, if_true] at hcore ⊢
+                obtain ⟨hk, hrel⟩ := objs_relabel F st.next
+                refine ⟨hk, ?_⟩
+                intro x hx
+                rcases hcore x hx with h1 | h1
+                · exact Or.inl (by simpa using ht0 x (by simpa [hcp] using h1))
+                · have h2 : x ∈ objs (relabel st.next F).1 := by
+                    split at h1
+                    · exact objs_setKids_nil _ x h1
+                    · exact h1
+                  exact Or.inr (hrel x h2)
+              | false =>
+                simp only [hcp, Bool.false_eq_true, if_false] at hcore ⊢
+                refine ⟨Nat.le_refl _, ?_⟩
+                intro x hx
+                rcases hcore x hx with h1 | h1
+                · exact Or.inl (List.mem_append_left _ (ht0 x (by simpa [hcp] using h1)))
+                · have h2 : x ∈ objs F := by
+                    split at h1
+                    · exact objs_setKids_nil _ x h1
+                    · exact h1
+                  exact Or.inl (List.mem_append_right _ h2)
 
 end Modify
